@@ -56,7 +56,22 @@ type recCase struct {
 	KillDelayMs int `json:"killDelayMs"` // pause between the last ingest call and SIGKILL
 	// SecondCrash: after the first verification the restarted server is killed and restarted again.
 	SecondCrash bool `json:"secondCrash"`
+	// WalFlush / WalMax (0 = production default): the two exported limits of the datapoint WAL are
+	// lowered before the first datapoint, so that ingest calls append blocks themselves after WalFlush
+	// buffered datapoints and the WAL of a block continues in a new file (rotateWAL) as soon as the
+	// encoded size of the current file exceeds WalMax bytes.
+	WalFlush int `json:"walFlush,omitempty"`
+	WalMax   int `json:"walMax,omitempty"`
+	// Cut: after the kill the LAST file of the rotated log of one block (group number CutGroup modulo
+	// the number of logs that hold data) is cut as a crash during its creation / its last append
+	// would have left it: "zero" (created, version byte not written), "empty" (version byte only),
+	// "len" / "hdr" / "mid" / "last" (inside the length field / after length and checksum / in the
+	// middle of the payload / one byte short) of its last block. "" = the file stays as the kill left it.
+	Cut      string `json:"cut,omitempty"`
+	CutGroup int    `json:"cutGroup,omitempty"`
 }
+
+var cutKinds = []string{"empty", "mid", "hdr", "len", "last", "zero"}
 
 var recMetricPool = []string{"c10_cpu", "c10_mem", "net_rx_bytes", "disk:io", "up", "a", "c10_q", "zz_latency"}
 
@@ -120,6 +135,30 @@ func genRecCase(t *rapid.T) *recCase {
 		cs.RotateAfter = rapid.IntRange(0, nWaited-2).Draw(t, "rotateAfter")
 	}
 	cs.SecondCrash = rapid.IntRange(0, 2).Draw(t, "secondCrash") == 0
+	// the datapoint WAL limits: about half of the cases run with lowered limits, so that the log of a
+	// block is spread over several files at the kill
+	// (rapid favours small values: the draws are rotated by a per-case offset to flatten the histogram)
+	flat := func(label string, n int) int {
+		return (rapid.IntRange(0, n-1).Draw(t, label) + int(base%uint32(n))) % n
+	}
+	walMaxes := []int{60, 90, 130, 180, 250, 400}
+	switch flat("walMode", 8) {
+	case 0, 1: // production limits: one file per block, blocks written by the 1-s timer only
+	case 3: // every append is followed by a rotation: the newest file is empty most of the time
+		cs.WalMax = 1
+		if rapid.Bool().Draw(t, "walFlushToo") {
+			cs.WalFlush = 1 + flat("walFlush", 4)
+		}
+	case 2, 4, 5, 6: // a few blocks per file, ingest calls append blocks themselves
+		cs.WalMax = walMaxes[flat("walMax", len(walMaxes))]
+		cs.WalFlush = 1 + flat("walFlush", 5)
+	default: // a few blocks per file, blocks written by the timer only
+		cs.WalMax = walMaxes[flat("walMax", len(walMaxes))]
+	}
+	if flat("cut", 3) == 0 {
+		cs.Cut = cutKinds[flat("cutKind", len(cutKinds))]
+		cs.CutGroup = rapid.IntRange(0, 3).Draw(t, "cutGroup")
+	}
 	return cs
 }
 
@@ -142,6 +181,18 @@ func (cs *recCase) valid() error {
 	if cs.RotateAfter >= len(cs.Phases) || (cs.RotateAfter >= 0 && !cs.Phases[cs.RotateAfter].Wait) {
 		return fmt.Errorf("rotateAfter must name a waited phase")
 	}
+	if cs.WalFlush < 0 || cs.WalFlush > 10000 || cs.WalMax < 0 || cs.CutGroup < 0 {
+		return fmt.Errorf("bad WAL limits")
+	}
+	if cs.Cut != "" {
+		ok := false
+		for _, k := range cutKinds {
+			ok = ok || k == cs.Cut
+		}
+		if !ok {
+			return fmt.Errorf("bad cut %q", cs.Cut)
+		}
+	}
 	return nil
 }
 
@@ -159,7 +210,13 @@ type walFile struct {
 	name           string
 	shard          string
 	segID, blockID uint64
+	idx            int // position of the file in the rotated log of its block (…_<idx>.wal)
 	dps            []wal.WalDatapoint
+}
+
+// group names the rotated log (all WAL files) of one metrics block.
+func (wf *walFile) group() string {
+	return fmt.Sprintf("%s/%d/%d", wf.shard, wf.segID, wf.blockID)
 }
 
 // readDPWals reads every datapoint WAL file of the directory through the exported iterator.
@@ -186,7 +243,11 @@ func readDPWals(walDir string) ([]walFile, error) {
 		if err1 != nil || err2 != nil {
 			continue
 		}
-		wf := walFile{name: e.Name(), shard: parts[1], segID: seg, blockID: blk}
+		idx, err3 := strconv.Atoi(strings.TrimSuffix(parts[6], ".wal"))
+		if err3 != nil {
+			continue
+		}
+		wf := walFile{name: e.Name(), shard: parts[1], segID: seg, blockID: blk, idx: idx}
 		it, err := wal.NewWALReader(filepath.Join(walDir, e.Name()))
 		if err == nil {
 			for {
@@ -205,20 +266,27 @@ func readDPWals(walDir string) ([]walFile, error) {
 
 // countBlocks walks the documented framing (1-byte version, then length-prefixed blocks).
 func countBlocks(path string) int {
+	ends, _ := blockEnds(path)
+	return len(ends)
+}
+
+// blockEnds walks the documented framing and returns the file offsets at which the complete blocks
+// end, and the file size (a size beyond the last end, or beyond the version byte, is a torn block).
+func blockEnds(path string) ([]int, int) {
 	b, err := os.ReadFile(path)
 	if err != nil {
-		return 0
+		return nil, 0
 	}
-	n := 0
+	var ends []int
 	for pos := 1; pos+8 <= len(b); {
 		l := int(uint32(b[pos]) | uint32(b[pos+1])<<8 | uint32(b[pos+2])<<16 | uint32(b[pos+3])<<24)
 		if l < 4 || pos+4+l > len(b) {
 			break
 		}
-		n++
 		pos += 4 + l
+		ends = append(ends, pos)
 	}
-	return n
+	return ends, len(b)
 }
 
 func readMNameWals(walDir string) map[string]bool {
@@ -436,6 +504,10 @@ func checkRec(cs *recCase, o *pt.Obs) error {
 	gone := func(stage string) error {
 		return fmt.Errorf("%s: server process died: %s", stage, pt.CrashDetail(e.c))
 	}
+	if err := e.setWalLimits(cs.WalFlush, cs.WalMax); err != nil {
+		return err
+	}
+	rotationUnobserved := false
 	for pi, ph := range cs.Phases {
 		stage := fmt.Sprintf("phase %d", pi)
 		if err := e.ingest("ingest "+stage, ph.Pts, !ph.Wait); err != nil {
@@ -498,6 +570,7 @@ func checkRec(cs *recCase, o *pt.Obs) error {
 				// Not fatal and not a reason to drop the case: everything sent so far has been seen
 				// in the log and stays owed whether or not (and however) the block was closed.
 				o.Class("block_rotation_not_observed")
+				rotationUnobserved = true
 			}
 		}
 	}
@@ -508,6 +581,12 @@ func checkRec(cs *recCase, o *pt.Obs) error {
 		return gone("before the kill")
 	}
 	e.c.Kill()
+	if cs.Cut != "" && !rotationUnobserved {
+		// (with a block rotation of unknown outcome the closed block may hold what the cut removes)
+		if err := e.cutLog(cs.Cut, cs.CutGroup); err != nil {
+			return err
+		}
+	}
 	if err := e.postMortem(); err != nil {
 		return err
 	}
